@@ -304,6 +304,8 @@ def _pin_worker():
     os.environ.setdefault("XLA_FLAGS", "--xla_cpu_multi_thread_eigen=false intra_op_parallelism_threads=1")
     os.environ.setdefault("OMP_NUM_THREADS", "1")
     os.environ.setdefault("OPENBLAS_NUM_THREADS", "1")
+    if os.environ.get("VERIF_PIN", "1") != "1":
+        return
     try:
         cpus = sorted(os.sched_getaffinity(0))
         ident = _mp.current_process()._identity
@@ -314,6 +316,12 @@ def _pin_worker():
 
 
 def pinned_pool(n: int | None = None):
-    """multiprocessing Pool (spawn) whose workers are pinned to one CPU each (see _pin_worker)."""
+    """multiprocessing Pool (spawn) whose workers are pinned to one CPU each (see _pin_worker).  Pinning halves
+    the CPU cost of small JAX ops, but on a machine that other jobs already saturate a pinned worker starves on
+    a busy CPU: pin only when the 1-minute load is below half the CPU count."""
     import multiprocessing as _mp
+    try:
+        os.environ["VERIF_PIN"] = "1" if os.getloadavg()[0] < NCPU / 2 else "0"
+    except OSError:
+        os.environ["VERIF_PIN"] = "0"
     return _mp.get_context("spawn").Pool(n or NCPU, initializer=_pin_worker)
